@@ -229,7 +229,10 @@ C16_TEXTS = {
 def insertions(lang, text, rnd, limit):
     lines = text.split("\n")
     out = []
-    for style in COMMENT[lang] + ["", "   "]:
+    odd_comment = [c.replace(" c", " see nocl docs, relies on noclobber") for c in COMMENT[lang][:1]] + \
+                  [c.replace(" c", " c\x0c d") for c in COMMENT[lang][:1]] + [c.replace(" c", " c\u2028 d") for c in COMMENT[lang][:1]]
+    odd_blank = ["\x0c", "\u00a0", "\u3000 ", "\t", "\x0b"] if lang != "Python" else ["\x0c", "\t"]
+    for style in COMMENT[lang] + ["", "   "] + odd_comment + odd_blank:
         for at in range(len(lines)):
             out.append((at, style))
     rnd.shuffle(out)
@@ -240,6 +243,8 @@ def insertions(lang, text, rnd, limit):
     # trailing comments / whitespace on every line, several simultaneous insertions
     tc = COMMENT[lang][0]
     cases.append(("trailing-comment", None, 0, "\n".join((l + "  " + tc) if l.strip() else l for l in lines)))
+    tc2 = tc.replace(" c", " relies on shell noclobber, see https://nocl.example.org")
+    cases.append(("trailing-comment-mentioning-nocl", None, 0, "\n".join((l + "  " + tc2) if l.strip() else l for l in lines)))
     cases.append(("trailing-space", None, 0, "\n".join(l + "   " for l in lines)))
     multi = []
     shift_points = sorted(rnd.sample(range(len(lines)), min(3, len(lines))))
@@ -253,7 +258,7 @@ def check_c04(lang, text):
     lines = text.split("\n")
     fails = []
     n = 0
-    for kind, at, k, new in insertions(lang, text, rnd, 14):
+    for kind, at, k, new in insertions(lang, text, rnd, 26):
         if kind == "insert-3-lines":
             pts = at
             new_lines = []
@@ -281,6 +286,7 @@ def check_c04(lang, text):
 
 
 # ------------------------------------------------------------------------------------------- C17
+COMMENT_LINE = {"brace": "// c", "indent": "# c"}
 MARKERS = {"brace": ["// nocl", "//NOCL", "/* nocl */", "//   NoCl because", "/*nocl*/"], "indent": ["# nocl", "#NOCL", "#   NoCl because"]}
 NON_MARKERS = {"brace": ["// not nocl", "// see nocl docs", "/* x nocl */"], "indent": ["# not nocl", "# see nocl"]}
 
@@ -316,6 +322,29 @@ def check_c17(lang, rnd):
         n += 1
         if got != ["alpha", "beta", "gamma"]:
             fails.append(("non-marker-comment-suppressed", f"comment {nm!r}: reported {got}", w.text()))
+    # several marker comments on non-function lines before a marked function; marked function must still be omitted
+    pre = [COMMENT_LINE[flav].replace("c", "nocl a"), COMMENT_LINE[flav].replace("c", "nocl b"), COMMENT_LINE[flav].replace("c", "nocl c")]
+    w = canon.render(lang, [("comment", "\n".join(pre)), canon.Func("alpha", 2), ("comment", pre[0]), canon.Func("beta", 3, marker=MARKERS[flav][0]),
+                            canon.Func("gamma", 2)], rnd) if lang not in ("Java", "C#") else None
+    if w is not None:
+        try:
+            got = [m.unit_name for m in analyse(lang, w.text())]
+            n += 1
+            if got != ["alpha", "gamma"]:
+                fails.append(("marker-comments-elsewhere-confuse", f"reported {got}, expected ['alpha', 'gamma']", w.text()))
+        except Exception as e:  # noqa
+            fails.append(("exception", f"{type(e).__name__}: {e}", w.text()))
+    # marking an enclosing function must not drop the (unmarked) nested one
+    if canon.NESTING[lang] and lang not in ("C++", "C#", "Java"):
+        outer = canon.Func("outer", 3, {1: canon.Func("inner", 2)}, marker=MARKERS[flav][0])
+        w = canon.render(lang, [outer, canon.Func("after", 2)], rnd)
+        try:
+            got = [m.unit_name for m in analyse(lang, w.text())]
+            n += 1
+            if got != ["inner", "after"]:
+                fails.append(("marked-encloser-drops-nested", f"reported {got}, expected ['inner', 'after']", w.text()))
+        except Exception as e:  # noqa
+            fails.append(("exception", f"{type(e).__name__}: {e}", w.text()))
     # marker on another line (inside the body) must not suppress
     w = canon.render(lang, [canon.Func("alpha", 2), canon.Func("beta", 3)], rnd)
     lines = w.text().split("\n")
@@ -362,7 +391,14 @@ def work(job):
             extra_texts = ["", "\n", "(", ")", "{", "}", "def f(", "def f(a):", "function f(", "f ( ) {", "((((((((((", "}}}}}}",
                            "const f = (cb = () => 0) => {\n}\n", "function foo(a = bar(1)) {\n}\n", 'def f():\n    """a\n    b"""\n',
                            "int f() {\n" * 30 + "}\n" * 30]
-            for t in extra_texts:
+            sep_texts = []
+            for w in progs[:3]:
+                for sep in ("\x0c", "\x0b", "\u2028", "\x85", "\r", "\r\n"):
+                    ls = w.text().split("\n")
+                    cm = COMMENT[lang][0]
+                    sep_texts.append("\n".join([ls[0] + "  " + cm + sep + "x"] + ls[1:]))
+                    sep_texts.append("\n".join([cm + " a" + sep + " b"] + ls))
+            for t in extra_texts + sep_texts:
                 cases.append(("edge", t, ()))
             for kind, t, tags in cases:
                 res["evaluations"] += 1
